@@ -87,9 +87,11 @@ func cmdCheck(args []string) int {
 	if s := os.Getenv("VERIF_SEED"); s != "" {
 		seed, _ = strconv.Atoi(s)
 	}
-	timeout := 60
+	// Only an undecided obligation ever runs into the limit; a generous one costs nothing on a
+	// tree where the property holds and keeps a loaded machine from turning "slow" into "unknown".
+	timeout := 150
 	if *tier == "thorough" {
-		timeout = 300
+		timeout = 400
 	}
 	t0 := time.Now()
 	evPath := filepath.Join(verifDir(), "evidence", prop+".json")
@@ -135,7 +137,7 @@ func cmdCheck(args []string) int {
 			}
 		}
 	}
-	workers := 8
+	workers := scaled(8)
 	if w := os.Getenv("GOVC_WORKERS"); w != "" {
 		workers, _ = strconv.Atoi(w)
 	}
